@@ -64,13 +64,16 @@ def probe(kind: str, tier: str):
         return [Cfg("P", "int", defaults=[(L("1"), S("Q")), (L("2"), None)]), Cfg("R", "string", defaults=[(S("T"), None)]), Cfg("Q", "bool", prompt="q"), Cfg("T", "string", prompt="t", defaults=[(L('"t0"'), None)])], {"Q": ["y", "n"], "T": ["t1"]}, ["CONFIG_OLD_P CONFIG_P"]
     if kind == "multi_def":
         return [Cfg("P", "int", prompt="p", prompt_cond=S("Q"), defaults=[(L("1"), S("Q"))]), Cfg("Q", "bool", prompt="q"), Cfg("P", "int", defaults=[(L("2"), None)])], {"Q": ["y", "n"], "P": ["5"]}, ["CONFIG_OLD_P CONFIG_P"]
+    if kind == "nonbool_in_choice":
+        ch = Choice(prompt="c", children=[Cfg("M1", "bool", prompt="m1"), If(cond=S("M1"), children=[Cfg("P", "int", prompt="p", defaults=[(L("5"), None)])]), Cfg("M2", "bool", prompt="m2")])
+        return [ch], {"P": ["7", "5"], "M2": ["y"], "M1": ["y"]}, ["CONFIG_OLD_P CONFIG_P"]
     if kind == "select_imply":
         src = Cfg("SRC", "bool", prompt="src", selects=[("P", None)], implies=[("P2", None)])
         return [Cfg("P", "bool", prompt="p"), Cfg("P2", "bool", prompt="p2"), src], {"SRC": ["y", "n"], "P": ["n", "y"], "P2": ["n"]}, ["CONFIG_OLD_NP2 !CONFIG_P2"]
     raise ValueError(kind)
 
 
-PROBES = ("string", "hex", "float", "int_range", "bool", "choice3", "set_target", "wset_target", "promptless_before", "multi_def", "select_imply")
+PROBES = ("string", "hex", "float", "int_range", "bool", "choice3", "set_target", "wset_target", "promptless_before", "multi_def", "select_imply", "nonbool_in_choice")
 CONTEXTS = ("plain", "prompt_if_before", "prompt_if_after", "depends", "menu_depends", "menu_visible", "if", "comment_menu")
 
 
